@@ -132,6 +132,9 @@ func exprText(e ast.Expr) string {
 		}
 		return s + ")"
 	case *ast.SliceExpr:
+		if x.Slice3 {
+			return exprText(x.X) + "[" + exprText(x.Low) + ":" + exprText(x.High) + ":" + exprText(x.Max) + "]"
+		}
 		return exprText(x.X) + "[" + exprText(x.Low) + ":" + exprText(x.High) + "]"
 	case *ast.TypeAssertExpr:
 		return exprText(x.X) + ".(" + exprText(x.Type) + ")"
